@@ -182,8 +182,10 @@ def cpp_statics(schema):
     raw = cpph.RawTU(schema, sanitize=False)
     try:
         for label, want, got in raw.layout():
-            if label.endswith(':sizeof') and want != got:
-                return ("raw C++ %s is %r, wire size is %r" % (label, got, want), {}, label.split(':')[0])
+            # sizeof of fixed types and the padding prophyc emits: offsets of every member, alignment of every part
+            if want != got:
+                return ("raw C++ %s is %r, the wire layout says %r" % (label, got, want), {},
+                        label.split(':')[0].split('.')[0])
     finally:
         raw.cleanup()
     return None
